@@ -107,6 +107,9 @@ type Scenario struct {
 	PowerDesc   string
 	// BLS: run this world with go-f3's production BLS code (blssig) instead of the stand-in scheme.
 	BLS bool
+	// SoloFaulty (solo scenarios only): member indices of the virtual members that may equivocate;
+	// their scaled power is strictly below a third in every table.
+	SoloFaulty map[int]bool
 }
 
 // Sig returns the signature scheme of the scenario.
@@ -798,6 +801,9 @@ func (w *World) deliver(h *host, e *event) {
 		w.Adv.accepted++
 	} else if e.byz {
 		w.Adv.rejected++
+	}
+	if e.byz && w.Adv.solo != nil {
+		w.Adv.solo.verdict(msg, verr)
 	}
 }
 
